@@ -14,6 +14,9 @@ does; liquidity quotes use the program's three-case table with round-up for depo
 round-down for withdrawals and put slippage on the safe side.
 Also decided: the program side of the comparison is the same on both packagings (C08.R1 instances re-decided
 here);
+Also decided: the SDK's grid steppers and array start use Euclidean remainder / division; its tick lookup refuses out-of-range
+and off-grid indexes and reads arrays[(i - start0) / (88 s)].ticks[(i - start_k) / s]; start / end index formulas; its
+transfer-fee arithmetic (ceil, cap at max_fee, inverse with the 100 % case).
 Not decided: numeric equality of the two arithmetic formulations (U256 vs U256Muldiv), "never
 fails where the program succeeds", the WASM / TypeScript packaging."""
 import re
